@@ -116,8 +116,12 @@ type gen struct {
 // risks: shapes known to break the reload (listed findings), planted at a low
 // rate; "stale-repeat" and "like-unshielded" are shapes that used to break it
 // (repaired in /repo) and stay as regression shapes.
+// "inherit-signal" is a near-miss: a role that extends another and declares an
+// inherited signal again must be refused at first load; should it ever be
+// accepted, the reload oracle applies (its flattened print has the signal
+// twice).
 var risks = []string{"order", "stale-repeat", "param-in-value", "param-empty", "param-space",
-	"newline-field", "ts-twice", "like-unshielded"}
+	"newline-field", "ts-twice", "like-unshielded", "inherit-signal"}
 
 func (g *gen) p(x float64) bool       { return g.r.Float64() < x }
 func (g *gen) pick(l []string) string { return l[g.r.Intn(len(l))] }
@@ -127,7 +131,7 @@ var actorNamePool = []string{"bob", "alice", "carol", "dave", "eve", "n1_", "x",
 var memberNamePool = []string{"al", "beth", "candice", "david", "ed", "fay", "gus", "hal", "obs_1", "aud2"}
 var varNamePool = []string{"v", "w", "last_t", "bin", "acc", "lat", "cnt", "x1", "y_"}
 var actionNamePool = []string{"cure", "sleep", "op", "help", "rest", "nap", "go", "a1", "car", "~k~", "put$"}
-var sigNamePool = []string{"feel", "lat", "qps", "ev", "temp", "ride", "s", "~z~", "err="}
+var sigNamePool = []string{"cure", "op", "feel", "lat", "qps", "ev", "temp", "ride", "s", "~z~", "err="}
 var moodPool = []string{"blue", "red", "clear", "rain", "m1", "~"}
 var modalities = []string{"always", "never", "once", "twice", "thrice", "not always", "eventually", "eventually always", "always eventually", "at most once"}
 var titlePool = []string{"100%s sure", "rate %d%% of %[1]d", "a midsummer's dream", "traffic # test", "Title: with colon", "x", "café au lait", "role model", "end", "say \"hi\" & <bye>", "50% off; now"}
@@ -196,7 +200,19 @@ func (g *gen) addRole() {
 	r := &gRole{name: g.fresh(roleNamePool)}
 	c := Clause{K: "role", Name: r.name}
 	ownSig := map[string]bool{}
-	if len(g.roles) > 0 && g.p(0.4) {
+	var withSigs []*gRole
+	for _, x := range g.roles {
+		if len(x.sigs) > 0 {
+			withSigs = append(withSigs, x)
+		}
+	}
+	if g.risk == "inherit-signal" && len(withSigs) > 0 {
+		par := withSigs[g.r.Intn(len(withSigs))]
+		c.Name2 = par.name
+		r.actions = append(r.actions, par.actions...)
+		r.sigs = append(r.sigs, par.sigs...)
+		r.spotlight = par.spotlight
+	} else if len(g.roles) > 0 && g.p(0.4) {
 		par := g.roles[g.r.Intn(len(g.roles))]
 		c.Name2 = par.name
 		r.actions = append(r.actions, par.actions...)
@@ -223,10 +239,14 @@ func (g *gen) addRole() {
 	if len(g.roles) == 0 {
 		n += 2
 	}
-	forceSig := false
+	firstSig := g.risk == "inherit-signal" && len(g.roles) == 0
+	forceSig := g.risk == "inherit-signal" && len(r.sigs) > 0
+	if forceSig {
+		n++
+	}
 	for i := 0; i < n; i++ {
 		k := g.r.Intn(7)
-		if forceSig && i == 0 {
+		if (forceSig || firstSig) && i == 0 {
 			k = 6
 		}
 		switch k {
@@ -250,7 +270,7 @@ func (g *gen) addRole() {
 			if ownSig[s] {
 				continue
 			}
-			if hasSig(s) {
+			if hasSig(s) && !forceSig {
 				continue // redefining an inherited signal is refused
 			}
 			typ := g.pick([]string{"event", "scalar", "delta"})
@@ -262,6 +282,9 @@ func (g *gen) addRole() {
 			if g.risk == "newline-field" && g.p(0.3) {
 				re = re + " \n x"
 				g.notes = append(g.notes, "newline in regexp")
+			}
+			if forceSig && i == 0 {
+				g.notes = append(g.notes, "inherited signal declared again")
 			}
 			ownSig[s] = true
 			if !hasSig(s) {
@@ -912,6 +935,9 @@ func generate(r *rand.Rand, risk string, size int) *gen {
 		default:
 			g.cl = append(g.cl, Clause{K: "computes", M: m0.name, Name: "use_" + v, Text: v + " ?? 0"})
 		}
+	}
+	if risk == "inherit-signal" && len(g.notes) == 0 {
+		g.addRole()
 	}
 	if risk == "like-unshielded" {
 		var t *gMember
